@@ -99,7 +99,16 @@ func pickInt(rng *rand.Rand, t *yang.YangType) *big.Int {
 	rs := rangesOf(t)
 	r := rs[rng.Intn(len(rs))]
 	span := new(big.Int).Sub(r.hi, r.lo)
-	switch rng.Intn(8) {
+	switch rng.Intn(9) {
+	case 8:
+		// small magnitudes (tiny decimals, small counters)
+		v := big.NewInt(int64(1 + rng.Intn(5000)))
+		if rng.Intn(2) == 0 {
+			v.Neg(v)
+		}
+		if v.Cmp(r.lo) >= 0 && v.Cmp(r.hi) <= 0 {
+			return v
+		}
 	case 0:
 		return new(big.Int).Set(r.lo)
 	case 1:
@@ -115,9 +124,11 @@ func pickInt(rng *rand.Rand, t *yang.YangType) *big.Int {
 		}
 		return new(big.Int).Set(r.hi)
 	case 4:
-		// 0, 1 or -1 if allowed
-		for _, c := range []int64{0, 1, -1} {
-			v := big.NewInt(c)
+		// 0, 1 or -1 if allowed (starting at a random one of them)
+		cs := []int64{0, 1, -1}
+		o := rng.Intn(3)
+		for k := 0; k < 3; k++ {
+			v := big.NewInt(cs[(o+k)%3])
 			if v.Cmp(r.lo) >= 0 && v.Cmp(r.hi) <= 0 {
 				return v
 			}
